@@ -468,6 +468,36 @@ inline Structure gen_structure(uint64_t seed, const GenOpt& g) {
       st.connections.push_back(c);
     }
   }
+  // SSBOND records: the record names residues only; the reader takes SG (an atom of that name without altloc whose
+  // element is S), otherwise the first sulfur atom of the residue. Generated partners are exactly such atoms (without
+  // altloc, so that the reader's closest-conformer search is not involved). They come first: SSBOND precedes LINK.
+  {
+    auto sulfur_of = [](const Residue& res) -> const Atom* {
+      const Atom* sg = res.find_atom("SG", '\0');
+      if (sg && sg->element == El::S) return sg;
+      const Atom* a = res.find_by_element(El::S);
+      return a && a->altloc == '\0' ? a : nullptr;
+    };
+    std::vector<std::pair<const Chain*, const Residue*>> with_s;
+    for (const Chain& ch : m0.chains)
+      for (const Residue& res : ch.residues)
+        if (sulfur_of(res)) with_s.push_back({&ch, &res});
+    int disulf = 0;
+    std::vector<Connection> ss;
+    if (!wide && with_s.size() >= 2)
+      for (int i = r.below(3); i > 0; --i) {
+        auto p1 = r.pick(with_s), p2 = r.pick(with_s);
+        if (p1.second == p2.second) continue;
+        Connection c;
+        c.type = Connection::Disulf;
+        c.name = "disulf" + std::to_string(++disulf);
+        const Atom* a1 = sulfur_of(*p1.second); const Atom* a2 = sulfur_of(*p2.second);
+        c.partner1 = AtomAddress(p1.first->name, p1.second->seqid, p1.second->name, a1->name);
+        c.partner2 = AtomAddress(p2.first->name, p2.second->seqid, p2.second->name, a2->name);
+        ss.push_back(c);
+      }
+    st.connections.insert(st.connections.begin(), ss.begin(), ss.end());
+  }
   for (int i = r.below(2); i > 0; --i) {
     CisPep c;
     c.partner_c = rand_res_addr(0);
